@@ -57,10 +57,13 @@ def run(chk):
             for mode in ((), ("--overlap", "1")):
                 # free delays; forced overlap: a voting job starts while shard workers are inside a scan for the next scene
                 args = tc.vh_args(cb, kind, n, "all", voters=v) + ["--delay-us", "1500", "--seed", str(chk.seed + n)] + list(mode)
-                rep = vlib.run_vh(args, [rb.out], stride=bstride * (2 if mode else 1))
+                rep = vlib.run_vh(args, [rb.out], stride=bstride)
                 rep["nontrivial"] = rep["cases"]
                 chk.add_report(f"batch-d3-delays:{kind}:shards={n}:voters={v}{':overlap' if mode else ''}", rep)
-                rep["by_sig"] = {s: x for s, x in rep["by_sig"].items() if s not in set(base["by_sig"])}
+                # the same behaviours were replayed by the baseline: a disagreement with the specification that the baseline
+                # does not show, or shows for another number of behaviours, depends on shard count / schedule
+                rep["by_sig"] = {s: x for s, x in rep["by_sig"].items()
+                                 if s not in base["by_sig"] or base["by_sig"][s]["count"] != x["count"]}
                 chk.classify("tracker", args, rep)
     # R2: the same random history with 1 shard and with k shards under randomly delayed workers: records and ids equal
     from checks import r2_common as r2
